@@ -1205,3 +1205,66 @@ def rule_reset1_merge(ctx: Ctx) -> RuleResult:
 def rule_optflow_structure(ctx: Ctx) -> RuleResult:
     """C12's CLI half: -s/--structure selects the layout function for every framework."""
     return _optflow_subset(ctx, "OPTFLOW-s", "--structure reaches generate_code's structure, whatever the framework", ["structure"])
+
+
+# ---------------------------------------------------------------------------------------------------------------
+def rule_regdeliv1(ctx: Ctx) -> RuleResult:
+    """The string-type registry that --datetime / --disable-str-serializable-types configure is a private, fresh object,
+    and it is the one the metadata generator receives."""
+    rr = RuleResult("REGDELIV-1", "the registry configured by the command line is private and reaches the generator", floor=3)
+    prog = ctx.prog
+    cli = prog.cls(CLI, "Cli")
+    funcs = [f for ms in cli.methods.values() for f in ms]
+    muts = []   # (function, call node, receiver text)
+    for f in funcs:
+        for n in walk_no_nested(f.node):
+            if isinstance(n, ast.Call):
+                fn = norm(n.func)
+                if fn.endswith("register_datetime_classes"):
+                    arg = n.args[0] if n.args else next((k.value for k in n.keywords if k.arg == "registry"), None)
+                    muts.append((f, n, norm(arg) if arg is not None else "<default: the module-level registry>"))
+                elif isinstance(n.func, ast.Attribute) and n.func.attr in ("remove_by_name", "remove", "add") and \
+                        "registry" in norm(n.func.value).lower() and "ModelRegistry" not in norm(n.func.value):
+                    muts.append((f, n, norm(n.func.value)))
+    if len(muts) < 2:
+        raise AnalysisError(f"REGDELIV-1: expected the registration and the removal call in Cli, found {len(muts)}")
+    st = ("the string types enabled / disabled by this command line live in a registry of this Cli object that was freshly "
+          "built for it, and the metadata generator of run() is given exactly that registry")
+    recvs = {r for _, _, r in muts}
+    for f, n, r in muts:
+        rr.instances += 1
+        if not r.startswith("self."):
+            rr.ob(f.relpath, f.qualname, norm(n)[:80], st, VIOLATED,
+                  f"`{norm(n)[:50]}` configures `{r}`, which is not an attribute of this Cli object: the setting is shared with "
+                  f"every other run of the process", n.lineno)
+            continue
+        attr = r[5:]
+        # a fresh object is stored into the attribute before the call, on every path, in the same function
+        stores = [x for x in walk_no_nested(f.node) if isinstance(x, (ast.Assign, ast.AnnAssign)) and getattr(x, "value", None) is not None
+                  and any(norm(t) == r for t in (x.targets if isinstance(x, ast.Assign) else [x.target]))]
+        fresh = [x for x in stores if isinstance(x.value, ast.Call) and any(
+            isinstance(t, ClassInfo) and t.name == "StringSerializableRegistry" for t in ctx.cg.resolve_call(f, f.module, x.value))
+            or (isinstance(x.value, ast.Call) and norm(x.value.func) in ("copy.deepcopy", "deepcopy"))]
+        cfg = ctx.cfg(f)
+        dom = cfg.dominators()
+        ok = bool(fresh) and len(fresh) == len(stores) and any(
+            cfg.node_containing(x, f.module.parents) in dom.get(cfg.node_containing(n, f.module.parents), set()) for x in fresh)
+        rr.ob(f.relpath, f.qualname, norm(n)[:80], st, DISCHARGED if ok else VIOLATED,
+              f"`{r}` is rebuilt (`{norm(fresh[0].value)[:50]}`) before it is configured" if ok else
+              f"`{r}` is not freshly built on every path before `{norm(n)[:40]}`: it can still be the default registry or the "
+              f"one configured by an earlier parse", n.lineno)
+    # delivery
+    rr.instances += 1
+    run = prog.func(CLI, "Cli.run")
+    gens = [n for n in walk_no_nested(run.node) if isinstance(n, ast.Call) and any(
+        isinstance(t, ClassInfo) and t.name == "MetadataGenerator" for t in ctx.cg.resolve_call(run, run.module, n))]
+    if len(gens) != 1:
+        raise AnalysisError(f"REGDELIV-1: expected one MetadataGenerator(...) in Cli.run, found {len(gens)}")
+    g = gens[0]
+    given = next((norm(k.value) for k in g.keywords if k.arg == "str_types_registry"), norm(g.args[0]) if g.args else None)
+    ok = given is not None and recvs == {given}
+    rr.ob(run.relpath, run.qualname, norm(g)[:90], st, DISCHARGED if ok else VIOLATED,
+          f"str_types_registry={given}" if ok else
+          f"the generator receives `{given}` while the command line configures {sorted(recvs)}: --datetime and "
+          f"--disable-str-serializable-types have no effect on this run (or act on another registry)", g.lineno)
+    return rr
